@@ -323,6 +323,25 @@ def adaptAll (E : ClassEnv) (fuel : Nat) (base : String) (srcs : List Val) : Exc
     | .error e => .error e
     | .ok s' => .ok (some s')
 
+/-- an argument with a `default=` spec: the default is adapted AND completed with the defaults of its class before the
+    first source is looked at (the parse starts from the namespace of defaults), so values filled in from the default's
+    class count as given when a later source changes the class -/
+def adaptAllWithDefault (E : ClassEnv) (fuel : Nat) (base : String) (dflt : Option Val) (srcs : List Val) :
+    Except Err (Option Val) :=
+  match dflt with
+  | none => adaptAll E fuel base srcs
+  | some d =>
+    match adaptAll E fuel base [d] with
+    | .error e => .error e
+    | .ok p0 =>
+      match adaptSeq E fuel base p0 srcs with
+      | .error e => .error e
+      | .ok none => .ok none
+      | .ok (some s) =>
+        match finalize E fuel s with
+        | .error e => .error e
+        | .ok s' => .ok (some s')
+
 /-! ### `instantiate_classes` -/
 
 inductive Arg where
